@@ -367,7 +367,7 @@ def main(argv):
       nb += 1
       case, detail = lst[0]['case'], lst[0]['detail']
       # skip if the failing input is exactly a listed known finding's input
-      if nb <= 4 and hasattr(mod, 'shrink'):
+      if nb <= 4 and hasattr(mod, 'shrink') and not os.environ.get('VF_NOSHRINK'):
         try:
           case2 = mod.shrink(case, b, time.time() + shrink_budget)
           if case2 is not None:
